@@ -138,11 +138,14 @@ func runC06(c *run.Ctx) {
 		// every single invocation fails in turn
 		for k, cl := range clean.Calls {
 			var faults []model.Fault
-			all := []model.Fault{{Kind: "error"}, {Kind: "group", N: 2 + k%2}, {Kind: "gerror"}, {Kind: "sentinel"}, {Kind: "wgroup", N: 2 + k%2}}
+			all := []model.Fault{{Kind: "error"}, {Kind: "group", N: 2 + k%2}, {Kind: "gerror"}, {Kind: "sentinel"}, {Kind: "wgroup", N: 2 + k%2}, {Kind: "ngroup", N: 1 + k%3}}
 			if c.Thorough() {
 				faults = all
 			} else {
 				faults = []model.Fault{all[(i+k)%5]}
+				if (i+k)%3 == 0 {
+					faults = append(faults, all[5])
+				}
 			}
 			nontriv := k > 0 && (len(exp0.Calls) > k && len(exp0.Calls[k].Path) > 1)
 			for _, f := range faults {
@@ -192,7 +195,7 @@ func runC06(c *run.Ctx) {
 				plan := model.FaultPlan{}
 				for j := 0; j < 2+m%2; j++ {
 					cl := clean.Calls[1+r.Intn(len(clean.Calls)-1)]
-					plan[cl.Key] = model.Fault{Kind: []string{"error", "group", "gerror", "sentinel", "sentinel", "wgroup"}[r.Intn(6)], N: 2}
+					plan[cl.Key] = model.Fault{Kind: []string{"error", "group", "gerror", "sentinel", "sentinel", "wgroup", "ngroup"}[r.Intn(7)], N: 2}
 				}
 				check(fmt.Sprintf("multi-%d", len(plan)), plan, ec.G, h, true)
 			}
